@@ -300,8 +300,13 @@ type transformationKey struct {
 	// transaction phase and we would never have different string pointers with the same
 	// content, or more problematically same pointer for different content, as the strings
 	// will be alive throughout the phase.
-	argKey            *byte
-	argIndex          int
+	argKey *byte
+	// The value is identified by its string data (pointer and length), never by its position
+	// in the list returned by the collection: positions are not stable, collections iterate
+	// Go maps in random order and exclusions shift them, so a position can designate different
+	// values in two rules (or two targets) of the same phase.
+	argValue          *byte
+	argValueLen       int
 	argVariable       variables.RuleVariable
 	transformationsID int
 }
@@ -309,4 +314,7 @@ type transformationKey struct {
 type transformationValue struct {
 	arg  string
 	errs []error
+	// in keeps the transformed input alive as long as the entry is cached, so that its
+	// address cannot be reused by another value (e.g. when a variable is set again).
+	in string
 }
